@@ -251,6 +251,54 @@ def expected_collisions(row):
     return bad
 
 
+def expected_names(row):
+    """expected= with names of every length and several names at once (bare names, pairs and mappings mixed the ways the
+    argument accepts): the own signature gains exactly those parameters - required when bare, with their default when
+    paired - and every other parameter keeps its kind and default; a call giving everything by keyword reaches the wrapper."""
+    from boltons import funcutils
+    sig = row["sig"]
+    if row["mode"] != "plain":
+        return []
+    f0 = make_func(sig, False, False)
+    have = set(inspect.signature(f0).parameters)
+    shapes = [("two-letter name", ["db"], [("db", None)]), ("two two-letter names", ["db", "tx"], [("db", None), ("tx", None)]),
+              ("two-letter bare string", "db", [("db", None)]), ("tuple of one two-letter name", ("xy",), [("xy", None)]),
+              ("pair then two-letter name", [("q9", 5), "db"], [("q9", 5), ("db", None)]),
+              ("three-letter and one-letter", ["abc", "d"], [("abc", None), ("d", None)]),
+              ("mapping with a two-letter key", {"db": 1, "xyz": 2}, [("db", 1), ("xyz", 2)]),
+              ("pairs given as two-element lists", [["pq", 7]], [("pq", 7)]),
+              ("generator of names", (n_ for n_ in ["db", "e"]), [("db", None), ("e", None)])]
+    bad = []
+    for label, exp, added in shapes:
+        if have & {n for n, _ in added}:
+            continue
+        f = make_func(sig, False, False)
+
+        def wrapper(*a, **kw):
+            return ("reached-wrapper", len(a) + len(kw))        # positional-or-keyword parameters arrive positionally
+        try:
+            w = funcutils.wraps(f, expected=exp)(wrapper)
+            got = {n: (k, hd, d) for n, k, hd, d in params_of(w)}
+            orig = {n: (k, hd, d) for n, k, hd, d in params_of(f)}
+            if set(got) != set(orig) | {n for n, _ in added}:
+                bad.append(("expected: " + label, "signature", sorted(got)))
+                continue
+            if any(got[n] != orig[n] for n in orig):
+                bad.append(("expected: " + label, "expected-changes-other-parameters", sorted(got)))
+                continue
+            wrong = [n for n, d in added if got[n][1] != (d is not None) or (d is not None and got[n][2] != d)]
+            if wrong:
+                bad.append(("expected: " + label, "expected-parameter-wrong", wrong))
+                continue
+            names = [n for n, (k, hd, d) in got.items() if k in (1, 3)]
+            r = w(**{n: 1 for n in names})
+            if r != ("reached-wrapper", len(names)):
+                bad.append(("expected: " + label, "forwarded-arguments", repr(r)[:100]))
+        except Exception as ex:
+            bad.append(("expected: " + label, "call-raised:" + core.exc_name(ex), str(ex)[:200]))
+    return bad
+
+
 def argument_forms(row):
     """injected / expected spelt in their other accepted forms (a bare string, a tuple, a mapping), injected and expected
     in one call, update_wrapper called directly (positionally and with func=): always the same own signature."""
@@ -314,7 +362,7 @@ def argument_forms(row):
 
 def run_row(row):
     from boltons import funcutils
-    bad = equalish_defaults(row) + injected_lists(row) + stacked(row) + odd_names(row) + expected_collisions(row) + argument_forms(row)
+    bad = equalish_defaults(row) + injected_lists(row) + stacked(row) + odd_names(row) + expected_collisions(row) + expected_names(row) + argument_forms(row)
     sig, mode = row["sig"], row["mode"]
     want_params = [[NAME[p[0]], p[1], p[2]] for p in row["wparams"]]
     seen = row["seen"]
